@@ -91,3 +91,29 @@ REG.contract(
              'implies(not isinstance(node, NullNode), typeis(result, "Replace") and result._constant_cost >= 1)'])
 REG.targets = ['graphtage.KeyValuePairEdit.__init__', 'graphtage.KeyValuePairNode.edits', 'graphtage.ListNode.edits',
                'graphtage.LeafNode.edits', 'graphtage.NullNode.edits']
+
+# ------------------------------------------------------------------------------------------------ StringNode.edits (C11, C02)
+# The per-character instance of the string edit distance is built from these pair edits: cost 0 exactly for equal text,
+# cost 1 for two different single characters; longer different strings get a StringEdit.
+REG.contract('StringEdit.__init__', self_cls='StringEdit', allocates=True,
+             params={'self': 'ref[StringEdit]', 'from_node': 'ref[StringNode]', 'to_node': 'ref[StringNode]'},
+             ensures=['self.from_node == from_node and self.to_node == to_node'],
+             modifies=['from_node@self', 'to_node@self', '_constant_cost@self', '_cost_upper_bound@self', '_valid@self',
+                       'initial_bounds@self', 'edit_distance@self'],
+             trusted='StringEdit.__init__: builds string_edit_distance(from_node.object, to_node.object) (C11 bounded stand-in)')
+REG.contract(
+    'StringNode.edits', params={'self': 'ref[StringNode]', 'node': 'ref[TreeNode]'}, returns='ref[Edit]', allocates=True,
+    requires=['isinstance(node, LeafNode) or isinstance(node, ContainerNode)'],
+    ensures=[
+        'result.from_node == self and result.to_node == node',
+        'implies(isinstance(node, StringNode) and seqeq(self.object, node.object), '
+        'typeis(result, "Match") and result._constant_cost == 0)',
+        'implies(isinstance(node, StringNode) and not seqeq(self.object, node.object) and len(self.object) == 1 '
+        'and len(node.object) == 1, typeis(result, "Match") and result._constant_cost == 1)',
+        'implies(isinstance(node, StringNode) and not seqeq(self.object, node.object) and not (len(self.object) == 1 '
+        'and len(node.object) == 1), typeis(result, "StringEdit"))',
+        'implies(not isinstance(node, StringNode) and isinstance(node, LeafNode), typeis(result, "Match") and '
+        'iff(result._constant_cost == 0, seqeq(self.object, node.object)))',
+        'implies(not isinstance(node, LeafNode), typeis(result, "Replace") and result._constant_cost >= 1)',
+    ])
+REG.targets.append('graphtage.StringNode.edits')
